@@ -1847,10 +1847,15 @@ class Exists(QuantifiedConditional):
         self._eval_parent_ = parent
         seen_var_values = []
         for val in self.condition._evaluate__(sources, parent=self):
-            var_val = val[self.variable._id_]
-            if val.is_true and var_val.value not in seen_var_values:
+            if val.is_false:
+                continue
+            # the condition can hold without binding the variable, e.g. when another operand of an or_ decided it
+            var_val = val.bindings.get(self.variable._id_)
+            if var_val is not None:
+                if var_val.value in seen_var_values:
+                    continue
                 seen_var_values.append(var_val.value)
-                yield OperationResult(val.bindings, False, self)
+            yield OperationResult(val.bindings, False, self)
 
     def _invert_(self):
         return ForAll(self.variable, self.condition._invert_())
